@@ -36,7 +36,9 @@ struct Expect {
 };
 
 struct System {
-  std::string name;   // catalogue name
+  std::string name;   // label (= catalogue name unless `solution` is set)
+  std::string solution;  // catalogue name passed to masa_init when it differs from the label
+  const std::string& sol() const { return solution.empty() ? name : solution; }
   std::string prop;   // primary property (C01..C08)
   int dim;            // jet variables used for the spatial lattice
   // adjust the generic base assignment to an admissible one (positivity etc.)
